@@ -85,6 +85,9 @@ func newCtx(prop, tier string) *Ctx {
 func (c *Ctx) phase(name string) bool {
 	f := os.Getenv("VERIF_PHASE")
 	ok := f == "" || strings.Contains(name, f)
+	if sk := os.Getenv("VERIF_PHASE_SKIP"); sk != "" && strings.HasPrefix(name, sk) { // developer aid: skip phases by name prefix
+		ok = false
+	}
 	if ok {
 		c.phaseStart = time.Now()
 	}
@@ -218,7 +221,7 @@ func (c *Ctx) writeEvidence() {
 	os.MkdirAll(evDir, 0o755)
 	b, _ := json.MarshalIndent(ev, "", " ")
 	name := c.Prop + ".json"
-	if os.Getenv("VERIF_PHASE") != "" {
+	if os.Getenv("VERIF_PHASE") != "" || os.Getenv("VERIF_PHASE_SKIP") != "" {
 		name = c.Prop + ".partial.json" // developer run of a subset of the phases: never the registered evidence
 	}
 	if err := os.WriteFile(filepath.Join(evDir, name), b, 0o644); err != nil {
